@@ -145,7 +145,8 @@ func run(c peng.Case) vt.Verdict {
 			continue
 		}
 		low := strings.ToLower(e.ErrText)
-		if strings.Contains(low, "context canceled") || strings.Contains(low, "context deadline exceeded") || strings.Contains(low, "code = canceled") || strings.Contains(low, "code = deadlineexceeded") {
+		if strings.Contains(low, "context canceled") || strings.Contains(low, "context deadline exceeded") || strings.Contains(low, "code = canceled") || strings.Contains(low, "code = deadlineexceeded") ||
+			strings.Contains(e.ErrText, scen.ErrCause.Error()) {
 			return vt.Verdict{OK: false, Key: "C08/ctx-error-mismatch/" + fam(e.Method), History: r.Events, Classes: classes,
 				Msg: fmt.Sprintf("call %d (%s) ended because its context ended (%s) but its error does not match the context's error under errors.Is: %q", e.Call, e.Method, e.Note, firstLine(e.ErrText))}
 		}
